@@ -33,6 +33,12 @@ def is_identity_hash(fn: ast.FunctionDef) -> bool:
 def is_hash_eq_body(fn: ast.FunctionDef) -> bool:
     """return self.__hash__() == other.__hash__()  (or hash(self) == hash(other))"""
     body = effective_body(fn)
+    # a leading `if not isinstance(other, <own class>): return NotImplemented` (Python's protocol for "not comparable") changes nothing between
+    # citations / resources
+    if len(body) == 2 and isinstance(body[0], ast.If) and not body[0].orelse and len(body[0].body) == 1 and isinstance(body[0].body[0], ast.Return) \
+            and norm(body[0].body[0].value) == "NotImplemented" and len(fn.args.args) == 2 \
+            and norm(body[0].test).startswith(f"not isinstance({fn.args.args[1].arg}, "):
+        body = body[1:]
     if len(body) != 1 or not isinstance(body[0], ast.Return):
         return False
     v = body[0].value
